@@ -16,8 +16,8 @@ MANIFEST = {
             "the known classes.",
     "note": "NOT proved: the conditional whitespace theorem (model conforms to `expected` for every well-formed sheet outside "
             "the known classes) — that part rests on the differential run (spec evaluated on the implementation's output for "
-            "every generated sheet). cssparser's tokenizer/serializer are the oracle (trusted). Known findings D15 D24 D26 D27 "
-            "D28 are listed in known_findings.json with narrow decidable classes (CssSpec.known); D13 D14 D23 were repaired "
+            "every generated sheet). cssparser's tokenizer/serializer are the oracle (trusted). Known findings D15 D24 D27 "
+            "D28 are listed in known_findings.json with narrow decidable classes (CssSpec.known); D13 D14 D23 D26 were repaired "
             "in /repo and sheets of those former classes are checked against the specification like all others.",
     "technique": "Coq proof by induction over token trees (token preservation, separator table) + refutation witnesses by "
                  "vm_compute + model/implementation correspondence and executable-spec conformance via extracted OCaml",
